@@ -67,7 +67,9 @@ type GenPkg struct {
 	Cell     *schema.Cell
 }
 
-func (p *GenPkg) OK() bool { return p.GenOut == "ok" && p.ReadErr == "" && p.GenErr == "" && p.BuildErr == "" }
+func (p *GenPkg) OK() bool {
+	return p.GenOut == "ok" && p.ReadErr == "" && p.GenErr == "" && p.BuildErr == ""
+}
 
 func expose(name string, private bool) string {
 	if name == "" {
